@@ -528,6 +528,14 @@ func writeEvidence(p *Prop, tier string, r *Report, exhaustive bool, wall float6
 	if r.Samples == nil {
 		cov["samples"] = []interface{}{}
 	}
+	if p := os.Getenv("VERIF_INSTR_STATS"); p != "" {
+		if b, err := os.ReadFile(p); err == nil {
+			var v interface{}
+			if json.Unmarshal(b, &v) == nil {
+				cov["instrumentation"] = v
+			}
+		}
+	}
 	doc := map[string]interface{}{
 		"property_id": p.ID,
 		"tier":        tier,
